@@ -184,6 +184,22 @@ def structure_check(fb, D, info, sizes, rng):
         if not (d3 <= 64 * E3 + 1e-12).all():
             j, i = np.unravel_index(np.argmax(d3), d3.shape)
             bad.append(('daun_p3/q3+spline', n, int(j), int(i), float(A3[j, i]), float(M['daun3'][j, i])))
+    # basex: tabulated rho_k(r_i)
+    import abel.basex as bx
+    for sigma in (1.0, 0.75, 2.5):
+        nb = 24
+        M, Mc = bx._bs_basex(nb, sigma, verbose=False)
+        for k in range(Mc.shape[1]):
+            for i in range(nb):
+                if k == 0:
+                    v, e = fb.ev(D['basex_Mc0'][1], dict(sigma=sigma, i=i), D)
+                elif i == 0:
+                    v, e = 0.0, 0.0
+                else:
+                    v, e = fb.ev(D['basex_Mck'][1], dict(k=k, sigma=sigma, i=i), D)
+                n_eval += 1
+                if not abs(v - Mc[i, k]) <= 16 * e + 1e-300:
+                    bad.append(('basex_Mc(sigma=%s)' % sigma, nb, i, k, v, float(Mc[i, k])))
     # rbasex: all orders, both parities
     Rmax = max(sizes)
     for odd in (False, True):
@@ -284,6 +300,24 @@ def tv_goals(fb, D, info, rng, quick):
             for Rc, r in prs:
                 v, e = fb.ev(D['rbasex_p%d' % n][1], dict(Rc=Rc, r=r), D)
                 add('rbasex_p%d(%d,%d)' % (n, Rc, r), 'rbasex_p%d %d %d' % (n, Rc, r), float(P[idx][Rc, r]), e)
+    # basex: tabulated basis functions rho_k(r_i) (matrix Mc) against the generated basex_Mc0 / basex_Mck
+    import abel.basex as bx
+    for sigma in (1.0, 0.75, 2.5):
+        nb = 30
+        M, Mc = bx._bs_basex(nb, sigma, verbose=False)
+        nbf = Mc.shape[1]
+        sl = rlit(Fraction(sigma))
+        prs = [(1, 1), (2, 3), (nbf - 1, nb - 1), (3, 1), (0, 0), (0, 5)]
+        prs += [] if quick else [(k, i) for k in (1, 4, nbf - 2) for i in (1, 7, 20)]
+        for k, i in prs:
+            if not (0 <= k < nbf and 0 <= i < nb) or (k >= 1 and i == 0):
+                continue
+            if k == 0:
+                v, e = fb.ev(D['basex_Mc0'][1], dict(sigma=sigma, i=i), D)
+                add('basex_Mc0[s=%s](%d)' % (sigma, i), 'basex_Mc0 %s %d' % (sl, i), float(Mc[i, 0]), e)
+            else:
+                v, e = fb.ev(D['basex_Mck'][1], dict(k=k, sigma=sigma, i=i), D)
+                add('basex_Mck[s=%s](%d,%d)' % (sigma, k, i), 'basex_Mck %d %s %d' % (k, sl, i), float(Mc[i, k]), e)
     return goals, samples
 
 
@@ -325,18 +359,6 @@ def inst_goals(fb, D, rng, quick):
             for Rc, r in prs:
                 add('rbasex[%d][%d,%d]' % (k, Rc, r), float(P[idx][Rc, r]), 'rbasex_proj %d %d %d' % (k, Rc, r),
                     up_pow2(2.0 ** -30 * max(1.0, Rc)))
-    # basex: reconstructed-image basis rho_k(r_i) = documented formula (interval)
-    for sigma in (1.0, 0.75, 2.5):
-        nb = 30
-        M, Mc = bx._bs_basex(nb, sigma, verbose=False)
-        nbf = Mc.shape[1]
-        for k, i in [(1, 1), (2, 3), (nbf - 1, nb - 1), (3, 1)] + ([] if quick else [(k, i) for k in (1, 4, nbf - 2) for i in (1, 7, 20)]):
-            if not (1 <= k < nbf and 1 <= i < nb):
-                continue
-            v = float(Mc[i, k])
-            tol = up_pow2(2.0 ** -36 * max(v, 1e-290))
-            add('basex_rho[s=%s][%d,%d]' % (sigma, i, k), v, 'basex_rho %d %s %d' % (k * k, rlit(Fraction(sigma)), i), tol,
-                'unfold basex_rho; interval with (i_prec 100)')
     return goals, samples
 
 
@@ -923,9 +945,9 @@ def run(ctx):
                    samples=(tvs[:3] + ins[:3]),
                    input_distribution=dict(structure_sizes=list(sizes),
                                            tv_goals=len(tvs), instance_goals=len(ins), search_evaluations=n_eval),
-                   instances_only=['basex rho_k'],
-                   swept_only=['basex projections chi_k', 'daun degree 3 cardinal spline (solve_banded)',
-                               'two_point axis entries D[0][0], D[0][1] are a convention (compared with the documented constants)'],
+                   instances_only=[],
+                   swept_only=['basex projections chi_k', 'daun degree 3: that solve_banded returns the clamped-spline slopes',
+                               'get_bs_cached histories (crop / load / extend)'],
                    exhaustive=False)
     new = 0
     seen = set()
@@ -951,11 +973,14 @@ def run(ctx):
         'theorems (all indices/sizes): daun degree 0, 1, 2 entries and the Hermite p/q projections of degree 3, onion-peeling W, two_point and three_point entries of rows i >= 1, '
         'rbasex orders 0..8 for 1 <= r <= R; they are about coq/gen/FormulasBasis.v, regenerated from abel/daun.py, abel/dasch.py, '
         'abel/rbasex.py by a fail-closed translator on every run',
-        'per-instance machine-checked goals (labelled instances, not the unbounded claim): basex rho_k; '
-        'additional instances of daun 1/2/3(p,q) and rbasex tie the floats of the implementation to the integrals (tolerance 2^-30 x scale)',
+        'stretch 2 theorems: daun-3 Hermite combination for any slopes + C2 <=> tridiagonal relation, Dasch axis row (every entry of '
+        'two_point / three_point now has a theorem; two_point D[0][0], D[0][1] as the documented convention), prefix property of the '
+        'Dasch matrices, triangular shapes, basex rho_k = documented formula',
+        'per-instance machine-checked goals (labelled instances, not the unbounded claim): '
+        'instances of daun 1/2/3(p,q) and rbasex tie the floats of the implementation to the integrals (tolerance 2^-30 x scale)',
         'only swept numerically (scipy quad): basex projections chi_k (infinite support, Gaussian moments), the clamped-spline solve of '
-        'daun degree 3',
-        'the Dasch axis row i = 0 is a convention of the methods and is not compared with an integral',
+        'daun degree 3, the get_bs_cached histories',
+        'Dasch axis row: two_point D[0][0], D[0][1] are the documented convention (theorem states the constants), every other entry is an integral',
         'float closed forms of daun lose accuracy by cancellation ~1e-14*(j+1)^(deg+1) (5e-5 at n=300, degree 3); tolerances scale accordingly',
         'operator statement for dasch is per entry with the interpolant of the unit vector e_j; the sum over j follows by linearity (not formalised)',
     ]
